@@ -168,8 +168,6 @@ Qed.
 Lemma filter_comm {A} (f g : A -> bool) l : filter f (filter g l) = filter g (filter f l).
 Proof. rewrite !filter_filter. apply filter_ext. intros x. apply andb_comm. Qed.
 
-Definition memb (a : sub_id) (ks : list sub_id) : bool := existsb (N.eqb a) ks.
-
 Lemma memb_in a ks : memb a ks = true <-> In a ks.
 Proof.
   unfold memb. rewrite existsb_exists. split.
@@ -949,3 +947,120 @@ Lemma queue_failure_stops_dispatcher :
   exists w, run_q cfg_fixed init queue_witness = (w, Ret tt, 2)
             /\ rcvd w 1 = [MSubscribed; MShutdown].
 Proof. eexists. split; vm_compute; reflexivity. Qed.
+
+(* ------------------------------------------------------------------ 6. the per-channel reference *)
+Lemma in_id_del a b ids : In b (id_del a ids) <-> b <> a /\ In b ids.
+Proof.
+  unfold id_del. rewrite filter_In, negb_true_iff, N.eqb_neq. tauto.
+Qed.
+Lemma in_id_add a b ids : In b (id_add a ids) <-> b = a \/ In b ids.
+Proof.
+  unfold id_add. destruct (memb a ids) eqn:E.
+  - apply memb_in in E. split; [tauto|]. intros [->|H]; assumption.
+  - rewrite in_app_iff. cbn [In]. split; intros H; [destruct H as [H|[H|[]]]; auto|destruct H; auto].
+Qed.
+Lemma NoDup_id_del a ids : NoDup ids -> NoDup (id_del a ids).
+Proof. apply NoDup_filter. Qed.
+Lemma NoDup_id_add a ids : NoDup ids -> NoDup (id_add a ids).
+Proof.
+  unfold id_add. intros H. destruct (memb a ids) eqn:E; [assumption|].
+  assert (Hn : ~ In a ids) by (intros Hi; apply memb_in in Hi; congruence).
+  clear E. induction ids as [|x l IH]; cbn [app]; [constructor; [intros []|constructor]|].
+  inversion H as [|? ? Hx Hl]; subst. constructor.
+  - rewrite in_app_iff. cbn [In]. intros [Hi|[Hi|[]]]; [now apply Hx|]. apply Hn. now left.
+  - apply IH; [assumption|]. intros Hi. apply Hn. now right.
+Qed.
+
+Lemma in_filter_negkey a b y d : In (b, y) (filter (negkey a) d) <-> b <> a /\ In (b, y) d.
+Proof. rewrite filter_In, negkey_pair, negb_true_iff, N.eqb_neq. tauto. Qed.
+
+Lemma in_dset_iff a x d b y : NoDup (dkeys d) ->
+  In (b, y) (dset a x d) <-> (b = a /\ y = x) \/ (b <> a /\ In (b, y) d).
+Proof.
+  intros Hnd. split; [now apply in_dset|].
+  intros [[-> ->]|[Hne Hin]]; [apply in_dset_new|now apply in_dset_old].
+Qed.
+
+Definition vinv (c : chan) (w : world) (v : list sub_id * cstate) : Prop :=
+  snd v = chans w c /\ NoDup (fst v) /\ forall b, In b (fst v) <-> In (b, c) (subscribers w).
+
+Lemma vinv_length c w v : wf w -> vinv c w v -> length (fst v) = count c (subscribers w).
+Proof.
+  intros Hwf [_ [Hnd Hiff]]. unfold count.
+  set (l := filter (fun p => N.eqb (snd p) c) (subscribers w)).
+  rewrite <- (map_length fst l).
+  assert (Hl : forall b, In b (map fst l) <-> In (b, c) (subscribers w)).
+  { intros b. rewrite in_map_iff. split.
+    - intros [[b' y] [Hb Hin]]. cbn [fst] in Hb. subst b'. apply filter_In in Hin as [Hin Hy].
+      cbn [snd] in Hy. apply N.eqb_eq in Hy. now subst y.
+    - intros Hin. exists (b, c). split; [reflexivity|]. apply filter_In. split; [assumption|apply N.eqb_refl]. }
+  assert (Hndl : NoDup (map fst l)) by (apply (NoDup_keys_filter _ _ Hwf)).
+  apply Nat.le_antisymm; apply NoDup_incl_length; try assumption; intros b Hb.
+  - apply Hl, Hiff, Hb.
+  - apply Hiff, Hl, Hb.
+Qed.
+
+Lemma view_step_inv c w w' v o : wf w -> vinv c w v ->
+  subscribers w' = spec_subs o w -> chans w' c = spec_chan o w c ->
+  vinv c w' (view_step c v o).
+Proof.
+  intros Hwf Hv Hs Hc. assert (Hlen := vinv_length c w v Hwf Hv).
+  destruct v as [ids s]. destruct Hv as [Hsn [Hnd Hiff]]. cbn [fst snd] in *. subst s.
+  unfold vinv. rewrite Hs, Hc.
+  destruct o as [[a x|a|e]|x k]; cbn [view_step spec_subs spec_chan].
+  - rewrite (N.eqb_sym x c). destruct (N.eqb_spec c x) as [<-|Hx].
+    + destruct (good (chans w c)); cbn [fst snd]; (split; [reflexivity|split]).
+      * now apply NoDup_id_add.
+      * intros b. rewrite in_id_add, in_dset_iff, Hiff by exact Hwf.
+        destruct (N.eq_dec b a); tauto.
+      * now apply NoDup_id_del.
+      * intros b. rewrite in_id_del, in_filter_negkey, Hiff. tauto.
+    + cbn [fst snd]. split; [reflexivity|split; [now apply NoDup_id_del|]].
+      intros b. rewrite in_id_del, Hiff. destruct (good (chans w x)).
+      * rewrite in_dset_iff by exact Hwf. split; [tauto|]. intros [[_ H]|H]; [congruence|tauto].
+      * rewrite in_filter_negkey. tauto.
+  - destruct (memb a ids) eqn:Em.
+    + apply memb_in, Hiff in Em. rewrite (dget_in a c _ Hwf Em), N.eqb_refl. cbn [fst snd].
+      split; [reflexivity|split; [now apply NoDup_id_del|]].
+      intros b. rewrite in_id_del, in_filter_negkey, Hiff. tauto.
+    + assert (Hn : ~ In (a, c) (subscribers w)).
+      { intros Hi. apply Hiff, memb_in in Hi. congruence. }
+      cbn [fst snd]. split; [|split; [assumption|]].
+      * destruct (dget a (subscribers w)) as [y|] eqn:Eg; [|reflexivity].
+        destruct (N.eqb_spec c y) as [<-|_]; [|reflexivity]. exfalso. now apply Hn, dget_some_in.
+      * intros b. rewrite in_filter_negkey, Hiff. split; [|tauto]. intros Hi. split; [|assumption].
+        intros ->. now apply Hn.
+  - rewrite <- Hlen. unfold bcast_chan. destruct (good (chans w c)) eqn:Eg; cbn [fst snd].
+    + split; [reflexivity|split; [assumption|]]. intros b. rewrite filter_In, Hiff. cbn [snd]. tauto.
+    + split; [reflexivity|split; [constructor|]]. intros b. rewrite filter_In. cbn [snd In]. split; [tauto|].
+      intros [_ H]. congruence.
+  - rewrite (N.eqb_sym x c). destruct (N.eqb_spec c x) as [<-|_]; cbn [fst snd]; (split; [reflexivity|split; assumption]).
+Qed.
+
+Section ViewT.
+Variable cfg : catch_cfg.
+Hypothesis Hcfg : forall f, f <> OtherErr -> caught_send cfg f = true /\ caught_bcast cfg f = true.
+
+Lemma steps_view c h : forall w v, wf w -> tame w -> no_other h = true -> vinv c w v ->
+  vinv c (steps cfg w h) (fold_left (view_step c) h v).
+Proof.
+  induction h as [|o t IH]; intros w v Hwf Ht Hno Hv; [exact Hv|].
+  cbn [no_other forallb] in Hno. apply andb_true_iff in Hno as [Ho Hno].
+  rewrite steps_cons. cbn [fold_left].
+  destruct (step_inv cfg Hcfg w o Hwf Ht Ho) as [Hwf' [Ht' _]].
+  destruct (step_spec cfg Hcfg w o Hwf Ht Ho) as [w' [Hrun [Hs Hc]]]. rewrite Hrun in *. cbn [fst] in *.
+  apply IH; auto. apply (view_step_inv c w w' v o Hwf Hv Hs (Hc c)).
+Qed.
+
+Lemma view_correct c h : no_other h = true ->
+  chans (steps cfg init h) c = snd (view c h)
+  /\ forall b, In b (fst (view c h)) <-> dget b (subscribers (steps cfg init h)) = Some c.
+Proof.
+  intros Hno.
+  destruct (steps_view c h init ([], fresh_chan) init_wf init_tame Hno) as [H1 [_ H3]].
+  - split; [reflexivity|split; [constructor|]]. intros b. cbn. tauto.
+  - split; [symmetry; exact H1|]. intros b. unfold view. rewrite H3.
+    destruct (steps_inv cfg Hcfg h init init_wf init_tame Hno) as [Hwf _].
+    split; [now apply dget_in|apply dget_some_in].
+Qed.
+End ViewT.
